@@ -71,13 +71,115 @@ def _gen_history(rng, srv, n):
     return reqs
 
 
-async def _record(dbp, url, seed, plan):
+class TableECU:
+    """A small deterministic ECU written for this check (independent of gallia's server code): sessions 1, 2, 3, 0x40, security
+    levels 1 and 3 (key = seed) in the non-default sessions, data that depends on (identifier, session, security level) - so a row
+    looked up in the wrong state is visibly wrong -, suppressed TesterPresent, and a boot phase after ECUReset during which it is silent."""
+
+    SESSIONS = (1, 2, 3, 0x40)
+
+    def __init__(self, boot):
+        self.boot = boot
+        self.session, self.sec, self.seed, self.silent, self.ctr = 1, None, None, 0, 0
+
+    def __call__(self, p):
+        if self.silent > 0:
+            self.silent -= 1
+            return None
+        sid = p[0]
+        if sid == 0x10 and len(p) == 2:
+            sub = p[1] & 0x7F
+            if sub not in self.SESSIONS:
+                return bytes([0x7F, 0x10, 0x12])
+            self.session, self.sec, self.seed = sub, None, None
+            return None if p[1] & 0x80 else bytes([0x50, sub, 0x00, 0x32, 0x01, 0xF4])
+        if sid == 0x11 and len(p) == 2:
+            self.session, self.sec, self.seed = 1, None, None
+            self.silent = self.boot
+            return bytes([0x51, p[1] & 0x7F])
+        if sid == 0x27 and len(p) >= 2:
+            sub = p[1] & 0x7F
+            if self.session == 1 or sub not in (1, 2, 3, 4):
+                return bytes([0x7F, 0x27, 0x12])
+            if sub % 2 == 1:
+                self.ctr += 1
+                self.seed = (sub, bytes([0xA0 + sub, self.ctr & 0xFF]))
+                return bytes([0x67, sub]) + self.seed[1]
+            if self.seed is None or self.seed[0] + 1 != sub:
+                return bytes([0x7F, 0x27, 0x24])
+            ok = p[2:] == self.seed[1]
+            self.seed = None
+            if not ok:
+                return bytes([0x7F, 0x27, 0x35])
+            self.sec = sub - 1
+            return bytes([0x67, sub])
+        if sid == 0x22 and len(p) == 3:
+            did = (p[1] << 8) | p[2]
+            if did == 0xF186:
+                return bytes([0x62, 0xF1, 0x86, self.session])
+            if did == 0x0C0C:
+                self.ctr += 1
+                return bytes([0x62, 0x0C, 0x0C, self.ctr & 0xFF])
+            if did & 1 and self.sec is None:
+                return bytes([0x7F, 0x22, 0x33])
+            return bytes([0x62, p[1], p[2], self.session, 0xFF if self.sec is None else self.sec, (did * 7) & 0xFF])
+        if sid == 0x2E and len(p) >= 4:
+            return bytes([0x6E, p[1], p[2]]) if self.session != 1 else bytes([0x7F, 0x2E, 0x7F])
+        if sid == 0x31 and len(p) >= 4:
+            return bytes([0x71, p[1] & 0x7F, p[2], p[3], self.session])
+        if sid == 0x3E and len(p) == 2:
+            return None if p[1] & 0x80 else bytes([0x7E, 0x00])
+        return bytes([0x7F, sid, 0x11])
+
+
+def _gen_table_history(rng, ecu, n):
+    """state-aware scenarios against TableECU: unlock then re-enter the active session, boot polling (the same request first
+    unanswered, later answered), suppressed requests repeated, reads of fresh identifiers in every reached state"""
+    reqs = []
+    fresh = [0x1000]
+
+    def rd(odd=None):
+        fresh[0] += 2
+        d = fresh[0] | (1 if (rng.random() < 0.5 if odd is None else odd) else 0)
+        return ("pdu", bytes([0x22, d >> 8, d & 0xFF]))
+
+    while len(reqs) < n:
+        r = rng.random()
+        s = rng.choice([2, 3, 0x40])
+        lvl = rng.choice([1, 3])
+        if r < 0.22:  # unlock, read, re-enter the same session, read something new and something old
+            a = rd(True)
+            reqs += [("pdu", bytes([0x10, s])), ("pdu", bytes([0x27, lvl])), ("key", lvl + 1, rng.random() < 0.85), a,
+                     ("pdu", bytes([0x10, s])), rd(True), a]
+        elif r < 0.40:  # reset and poll until the ECU is back
+            reqs += [("pdu", bytes([0x11, rng.choice([1, 2, 3])]))] + [("pdu", b"\x3e\x00")] * (ecu.boot + rng.choice([1, 2]))
+        elif r < 0.50:
+            reqs += [("pdu", b"\x3e\x80")] * rng.choice([1, 2, 3]) + [("pdu", b"\x3e\x00")]
+        elif r < 0.60:
+            reqs += [("pdu", bytes([0x10, rng.choice([1, s, s, 0x55])]))]
+        elif r < 0.70:
+            reqs += [("pdu", bytes([0x27, lvl])), ("key", lvl + 1, rng.random() < 0.7)]
+        elif r < 0.78:
+            reqs += [("pdu", b"\x22\xf1\x86")]
+        elif r < 0.86:
+            reqs += [("pdu", b"\x22\x0c\x0c")] * rng.choice([1, 2, 3])
+        elif r < 0.93 and reqs:
+            reqs.append(rng.choice([q for q in reqs if q[0] == "pdu"]))
+        else:
+            reqs.append(rd())
+    return reqs
+
+
+async def _record(dbp, url, seed, plan, table_boot=None):
     from gallia.db.handler import DBHandler
     from gallia.services.uds.ecu import ECU
     from gallia.services.uds.server import RandomUDSServer, UDSServerTransport
     from gallia.transports.base import TargetURI
     from lib.fakeecu import FnTransport
 
+    if table_boot is not None:
+        srv = TableECU(table_boot)
+        return await _record_with(dbp, url, srv, srv, plan)
     srv = RandomUDSServer(seed)
     await srv.setup()
     tr = UDSServerTransport(srv, TargetURI("fake://x"))
@@ -90,6 +192,14 @@ async def _record(dbp, url, seed, plan):
             return b"\x62\x0c\x0c" + bytes([counter[0] & 0xFF])
         r, _ = await tr.handle_request(p)
         return r
+
+    return await _record_with(dbp, url, srv, fn, plan)
+
+
+async def _record_with(dbp, url, srv, fn, plan):
+    from gallia.db.handler import DBHandler
+    from gallia.services.uds.ecu import ECU
+    from lib.fakeecu import FnTransport
 
     ecu = ECU(FnTransport(fn), timeout=0.1, max_retry=0)
     db = DBHandler(dbp)
@@ -162,6 +272,18 @@ def _rows_for(dbp, ecu_name, props):
     return rows
 
 
+def _logged_states(dbp, run_id):
+    """the client's view of the ECU state as ECU._request logged it, one entry per exchange of this run"""
+    c = sqlite3.connect(dbp)
+    out = []
+    for (state,) in c.execute("SELECT state FROM scan_result WHERE run=? ORDER BY id", (run_id,)):
+        st = json.loads(state)
+        sec = st.get("security_access_level")
+        out.append(f"{st['session']}/{'n' if sec is None else sec}")
+    c.close()
+    return out
+
+
 def _kind_of_real(pdu):
     from gallia.services.uds.core import service
 
@@ -187,8 +309,10 @@ def run(ctx):
     rng = ctx.rng
     ctx.rule = ("one case = (database with 1..3 recorded runs of distinct ECUs, selector kind, recorded history replayed); histories of "
                 "8..40 exchanges over session changes, seed/key pairs, resets, reads/writes/routines, suppressed and repeated requests "
-                "against RandomUDSServer seeds; distinct = distinct (rows, request sequence); non-trivial = history contains a state change")
-    n_db = ctx.pick(45, 250)
+                "against RandomUDSServer seeds and against a deterministic table ECU with state-dependent data (unlock then re-enter the active session, "
+                "boot polling where the same request is first unanswered and later answered); the state logged per row is compared with the "
+                "model's client state-tracking rule; distinct = distinct (rows, request sequence); non-trivial = history contains a state change")
+    n_db = ctx.pick(70, 400)
     lines_replay, lines_agree, meta = [], [], []
     with tempfile.TemporaryDirectory(prefix="verif-c12-") as td:
         for di in range(n_db):
@@ -199,7 +323,13 @@ def run(ctx):
                 seed = rng.randrange(1 << 30)
                 n = rng.randint(8, ctx.pick(28, 40))
                 url = f"fake://ecu{ri}"
-                (run_id, hist), _ = vrun(_record(dbp, url, seed, lambda srv, n=n: _gen_history(rng, srv, n)))
+                if rng.random() < 0.5:
+                    boot = rng.choice([0, 1, 2, 3])
+                    (run_id, hist), _ = vrun(_record(dbp, url, seed, lambda srv, n=n: _gen_table_history(rng, srv, n), table_boot=boot))
+                    ctx.kind("ecu:table")
+                else:
+                    (run_id, hist), _ = vrun(_record(dbp, url, seed, lambda srv, n=n: _gen_history(rng, srv, n)))
+                    ctx.kind("ecu:RandomUDSServer")
                 recs.append((run_id, url, hist))
             # names / properties written the way a user (or an OEM ECU class) would
             c = sqlite3.connect(dbp)
@@ -222,7 +352,8 @@ def run(ctx):
                 rows = _rows_for(dbp, name, props)
                 lines_replay.append("replay " + ";".join(rows) + " | " + ",".join(hx(p) for p in reqs))
                 lines_agree.append("agree " + ";".join(f"{hx(p)}:{hx(r) if r is not None else 'N'}" for p, r in hist))
-                meta.append({"db": di, "run": ri, "mode": mode, "hist": hist, "real": real, "n_runs": n_runs})
+                meta.append({"db": di, "run": ri, "mode": mode, "hist": hist, "real": real, "n_runs": n_runs,
+                             "logged": _logged_states(dbp, run_id)})
                 ctx.ev()
                 ctx.kind(f"runs={n_runs}", f"select:{mode}")
     out_r = ctx.lean(lines_replay)
@@ -239,12 +370,28 @@ def run(ctx):
         ctx.nontrivial((line,))
         if any(k.startswith(("dsc", "sa", "reset")) for k in kinds_real):
             ctx.kind("history-with-state-change")
+        if any(k in ("sa2", "sa4") for k in kinds_real):
+            ctx.kind("history-with-unlock")
+        seen_silent = set()
+        for (p_, r_) in hist:
+            if r_ is None:
+                seen_silent.add(p_)
+            elif p_ in seen_silent:
+                ctx.kind("history-with-request-first-unanswered-then-answered")
+                break
         case = {"selector": m["mode"], "runs_in_db": m["n_runs"], "history": [[hx(p), None if r is None else hx(r)] for p, r in hist]}
         if kinds_model != kinds_real:
             i = next(k for k in range(len(kinds_real)) if k >= len(kinds_model) or kinds_model[k] != kinds_real[k])
             ctx.disagree(f"replay:classify:{kinds_real[i].rstrip('0123456789:')}", f"reply {recorded_s[i]} is classified {kinds_real[i]} by the real parser, {kinds_model[i] if i < len(kinds_model) else '?'} by the model",
                          case, impl=kinds_real, model=kinds_model, spec_violated=False, site="UDSServer.update_state / ECU.update_state")
             continue
+        client_model = la.split("client=")[1].split(" ")[0].split(",") if "client=" in la and hist else []
+        if client_model != m["logged"]:
+            i = next((k for k in range(min(len(client_model), len(m["logged"]))) if client_model[k] != m["logged"][k]), 0)
+            ctx.disagree(f"replay:logged-state:after-{kinds_real[i - 1].rstrip('0123456789:') if i else 'start'}",
+                         f"state logged for exchange {i} is {m['logged'][i] if i < len(m['logged']) else '?'}, the client state-tracking rule gives "
+                         f"{client_model[i] if i < len(client_model) else '?'} (session/security level before the request)",
+                         {**case, "index": i}, impl=m["logged"], model=client_model, spec_violated=False, site="ECU.update_state")
         if agree:
             n_agree += 1
             if real_s[: len(recorded_s)] != recorded_s:
@@ -274,7 +421,7 @@ MANIFEST = {
                    "arbitrary rows of other ECUs / property sets and with later rows of the same ECU - returns exactly the recorded replies and "
                    "silence where none was recorded; plus a syntactic sufficient condition for the presupposition and the concrete history on "
                    "which it fails. The replay model (row selection id > last then wrap, JSON state match, reset on NULL reply) is tied to the code "
-                   "by recording with the real ECU + DBHandler against RandomUDSServer into real sqlite files and replaying through the real "
+                   "by recording with the real ECU + DBHandler against RandomUDSServer and a state-aware table ECU into real sqlite files (logged client state per row = model's clientStates) and replaying through the real "
                    "DBUDSServer: model prediction = real replay on every history, real replay = recording whenever the presupposition holds."),
     "level_note": ("Trusted: Lean kernel, sqlite/aiosqlite, the harness. C01/C02 round trips are assumed for the stored request/response bytes. "
                    "Earlier runs of the *same* ECU name/properties shadow later ones by design and are outside the theorem."),
